@@ -28,7 +28,7 @@ ASSUMPTIONS = ["Subscribe/SubscribeAck entries use counter 0..15 and a 16-bit ev
 FLOORS = {"quick": {"messages": 12000, "roundtrips_compared": 9000, "independent_decodes": 9000, "must_fail_cases": 400,
                     "must_fail_raised": 400, "shared_runs_observed": 3000, "send_sd_path": 300, "runs_of_15": 50,
                     "arrays_over_200_options": 8,
-                    "mesh_scenarios": 100, "mesh_wire_datagrams": 8000}}
+                    "mesh_scenarios": 100, "mesh_wire_datagrams": 4800}}
 # system-level shards: the mesh workload of pv/mesh.py under this property's boundary monitors (reports of other monitors are dropped)
 MESH = {"want": ("wire",), "claim": ("mesh:transmitted-datagram-is-not-well-formed-sd", "mesh:own-transmission-rejected"),
         "quick": (2, 60), "thorough": (16, 1500)}
